@@ -787,6 +787,9 @@ func (g gen) spec(maxApps, maxMembers int) Spec {
 			a.Long = fmt.Sprintf("Long name %d", g.r.Intn(5))
 		}
 		nm := g.r.Intn(maxMembers + 1)
+		if nm < 2 && g.r.Chance(4, 5) {
+			nm = 2 + g.r.Intn(2)
+		}
 		nt, ne, np, nv, rid := 0, 0, 0, 0, 0
 		for j := 0; j < nm; j++ {
 			switch k := g.r.Intn(12); {
@@ -865,11 +868,7 @@ func (g gen) split(s Spec, o splitOpts) Layout {
 		if o.maxBlocks >= 3 && g.r.Chance(1, 2) {
 			k = 3 + g.r.Intn(o.maxBlocks-2)
 		}
-		bs := make([]Block, k)
-		for i := range bs {
-			bs[i].Parts = a.Parts
-		}
-		bs[0].Long, bs[0].A = a.Long, a.A
+		var pieces []Member
 		for _, m := range a.Members {
 			switch {
 			case (m.Kind == "type" || m.Kind == "table") && o.splitFields && len(m.Fields) >= 2 && g.r.Chance(1, 2):
@@ -895,10 +894,7 @@ func (g gen) split(s Spec, o splitOpts) Layout {
 					frs[assign[i]].Fields = append(frs[assign[i]].Fields, f)
 				}
 				frs[g.r.Intn(nfr)].A = m.A
-				for _, fr := range frs {
-					bi := g.r.Intn(k)
-					bs[bi].Members = append(bs[bi].Members, fr)
-				}
+				pieces = append(pieces, frs...)
 			case m.Kind == "rest" && o.splitFields && len(m.Rest.Methods)+len(m.Rest.Subs) >= 2 && g.r.Chance(1, 2):
 				r1, r2 := &RNode{Segs: m.Rest.Segs}, &RNode{Segs: m.Rest.Segs}
 				n := 0
@@ -924,14 +920,29 @@ func (g gen) split(s Spec, o splitOpts) Layout {
 					p := pick()
 					p.Subs = append(p.Subs, su)
 				}
-				for _, rn := range []*RNode{r1, r2} {
-					bi := g.r.Intn(k)
-					bs[bi].Members = append(bs[bi].Members, Member{Kind: "rest", Rest: rn})
-				}
+				pieces = append(pieces, Member{Kind: "rest", Rest: r1}, Member{Kind: "rest", Rest: r2})
 			default:
-				bi := g.r.Intn(k)
-				bs[bi].Members = append(bs[bi].Members, m)
+				pieces = append(pieces, m)
 			}
+		}
+		// the first k pieces (in random order) open one block each, the others go anywhere
+		shuffle(g.r, pieces)
+		if k > len(pieces) {
+			k = len(pieces)
+		}
+		if k == 0 {
+			k = 1
+		}
+		bs := make([]Block, k)
+		for i := range bs {
+			bs[i].Parts = a.Parts
+		}
+		for i, pc := range pieces {
+			bi := g.r.Intn(k)
+			if i < k {
+				bi = i
+			}
+			bs[bi].Members = append(bs[bi].Members, pc)
 		}
 		// a block without members could only be written with `...`, which itself declares an endpoint:
 		// empty blocks are dropped and the header moves to the first block that has members
@@ -951,6 +962,9 @@ func (g gen) split(s Spec, o splitOpts) Layout {
 		}
 	}
 	nf := 1 + g.r.Intn(o.maxFiles)
+	if nf == 1 && o.maxFiles > 1 && g.r.Chance(2, 3) {
+		nf = 2 + g.r.Intn(o.maxFiles-1)
+	}
 	if nf > len(blocks) {
 		nf = len(blocks)
 	}
